@@ -30,8 +30,8 @@ CHECKS = {
         "limit): agreement of the stored populations and of get_PropagationMatrix with scipy's expm within the truncation "
         "bound / 1e-9 - the exponential itself is an oracle.",
    note=TB + "All C17 theorems are closed under the global context. Tie: random set_rate histories compared exactly in Coq; "
-        "propagation compared with the model over exact rationals within 1e-11.",
-   design="7/C17", technique="Coq proof (ring/induction over op histories and Taylor loop) + in-Coq differential correspondence + statement-level translator (set_rate and the _propagate_short_exp loop nest regenerated from the source, equivalence lemmas re-proved every run)"),
+        "propagation compared with the model over exact rationals within 1e-11. Glue tie: per run and fail-closed; expm and round are oracles that enter as function parameters; the correction blocks (Uc0/Uc1/Uc2) are tied by their guards only.",
+   design="7/C17", technique="Coq proof (ring/induction over op histories and Taylor loop) + in-Coq differential correspondence + statement-level translator (set_rate and the _propagate_short_exp loop nest regenerated from the source, equivalence lemmas re-proved every run) + static tie of the glue around the kernels (initialisation, dispatch and decision trees, index bookkeeping, RWA and dephasing factors, sub-axis logic, constructors, fields read and written): the code's own expressions instantiate skeleton combinators (Proofs/C02gen.v, C07gen.v, C08objgen.v, C17gen.v) proved equal to Model/C02glue.v, C07glue.v, C08obj.v and C17axis.v"),
  "C19": dict(
    text="Proved in Coq for every history (induction over op lists, data in any commutative ring): whatever is readable at the end "
         "(total, signals, processes, types, per level of the store) equals the sum of the accepted additions belonging to it, "
@@ -97,8 +97,8 @@ CHECKS = {
         "registration lists, depth); float monitors for real symmetric, degenerate, diagonal-unsorted and complex Hermitian operators "
         "(1e-9). Objects protected inside a context are re-tagged, not transformed (by design) and are excluded from the restoration "
         "claim. Evolutions do not tag themselves on creation and are created outside contexts only; operator-form tensors are covered "
-        "by the action laws and by C07.",
-   design="7/C04", technique="Coq proof (state-machine invariant by induction over program trees; ring algebra for the actions) + loop nests of the tensor basis change regenerated from the source by a translator with machine-checked equivalence lemmas + in-Coq differential correspondence"),
+        "by the action laws and by C07. The static ties cover the transform loop nests and the bookkeeping state machine; they are relative to the translator's reading of Python (objects as heap labels, aliases of registration lists, snapshot iteration of `for`, apply and object construction matched as statement sequences) and to eigh, inv and transform being an abstract group action.",
+   design="7/C04", technique="Coq proof (state-machine invariant by induction over program trees; ring algebra for the actions) + loop nests of the tensor basis change regenerated from the source by a translator with machine-checked equivalence lemmas + in-Coq differential correspondence + second static tie (GenC04b.v): the basis bookkeeping of core/managers.py (Manager, BasisManaged incl. __copy__, eigenbasis_of), utils/types.py, the constructors' tagging block and SuperOperator.apply is re-translated from the source on every run into Gallina over a Python-level state and proved equal to a transcription that Proofs/C04gen.v shows simulates every step function of Model/C04.v and the whole exec (mexec_sim), so the restoration theorem holds for the code's own stack, transformations, registration dictionary, current_basis_operator and context flag"),
  "C01": dict(
    text="Proved in Coq over any commutative *-ring, for every dimension, every number of bath components and (index by index) every "
         "time index: the Redfield assembly loop is traceless with NO hypothesis on the operators handed to it; with K_m real and "
@@ -212,8 +212,8 @@ CHECKS = {
         "StateVectorPropagator.propagate on integer generators with dyadic steps compared (1e-10 relative) inside Coq with the model run "
         "in exact complex-rational arithmetic, whose own run is checked to conserve the trace exactly and stay exactly Hermitian; RWA "
         "conversions compared on the run's own phases. numpy.exp values (dephasing multipliers, phases) are oracles. Field-driven "
-        "propagation (raises NOT IMPLEMENTED upstream) and inhomogeneous terms are not modelled.",
-   design="7/C02", technique="Coq proof (Taylor loop abstracted over generator sequences: invariants and relational lemmas by induction; ring/field identities) + propagator kernels _COM/_TTI/_OTI regenerated from the source by a translator with machine-checked equivalence lemmas + in-Coq differential correspondence in exact rational arithmetic"),
+        "propagation (raises NOT IMPLEMENTED upstream) and inhomogeneous terms are not modelled. Glue tie: per run and fail-closed; logging statements are ignored; exp, round and numpy.dot enter as function parameters with stated algebraic hypotheses; the per-property translators join the trusted base. The field / EField propagation nests are not tied.",
+   design="7/C02", technique="Coq proof (Taylor loop abstracted over generator sequences: invariants and relational lemmas by induction; ring/field identities) + propagator kernels _COM/_TTI/_OTI regenerated from the source by a translator with machine-checked equivalence lemmas + in-Coq differential correspondence in exact rational arithmetic + static tie of the glue around the kernels (initialisation, dispatch and decision trees, index bookkeeping, RWA and dephasing factors, sub-axis logic, constructors, fields read and written): the code's own expressions instantiate skeleton combinators (Proofs/C02gen.v, C07gen.v, C08objgen.v, C17gen.v) proved equal to Model/C02glue.v, C07glue.v, C08obj.v and C17axis.v"),
  "C07": dict(
    text="Proved in Coq over any commutative *-ring, every dimension and number of bath components: the tensor built by "
         "_convert_operators_2_tensor, applied by tensordot, acts on EVERY operator exactly as the operator form K rho L^+ + L rho K^T - "
@@ -229,8 +229,8 @@ CHECKS = {
    note=TB + "All C07 theorems closed under the global context. Tie: apply() of real LindbladForm/RedfieldRelaxationTensor objects "
         "holding integer operators in both forms compared with = inside Coq; propagation in both forms against the exact-rational "
         "propagator model (1e-10); float monitors on random aggregates: both forms inside/outside basis contexts (apply and propagate, "
-        "time independent and time dependent, with and without cut-off), R_TD(0) = 0 exactly, R_TD(last) = R_TI within 1e-12 relative.",
-   design="7/C07", technique="Coq proof (index-level ring algebra, relational induction over the Taylor loop) + propagator kernels regenerated from the source by a translator with machine-checked equivalence lemmas + exact in-Coq correspondence on integer operators"),
+        "time independent and time dependent, with and without cut-off), R_TD(0) = 0 exactly, R_TD(last) = R_TI within 1e-12 relative. Glue tie: per run and fail-closed; the spline antiderivative and exp are oracles with stated hypotheses; the cut-off clamp of both time-dependent nests is tied as the code has it (index taken on the propagation axis; on coarser propagation axes the tensor is frozen earlier than the cut-off time - noticed, not judged: no property speaks about cut-off consistency; counted as not_judged:cutoff_clamp_axis). Known finding float:convert_inside_context:complex (operator form in a complex unitary basis).",
+   design="7/C07", technique="Coq proof (index-level ring algebra, relational induction over the Taylor loop) + propagator kernels regenerated from the source by a translator with machine-checked equivalence lemmas + exact in-Coq correspondence on integer operators + static tie of the glue around the kernels (initialisation, dispatch and decision trees, index bookkeeping, RWA and dephasing factors, sub-axis logic, constructors, fields read and written): the code's own expressions instantiate skeleton combinators (Proofs/C02gen.v, C07gen.v, C08objgen.v, C17gen.v) proved equal to Model/C02glue.v, C07glue.v, C08obj.v and C17axis.v"),
  "C08": dict(
    text="Proved in Coq over any commutative *-ring, every dimension, grid length, dense-step setting >= 1, order and number of "
         "incremental steps: data[i] is the i-th tensordot power of Udt - the identity at time zero - and powers compose, "
@@ -246,8 +246,8 @@ CHECKS = {
         "apply(t_i, rho) compared (1e-10 relative) inside Coq with the model in exact rational arithmetic; float monitors (Lindblad, with "
         "and without Lorentzian dephasing): identity, semigroup, trace/Hermiticity, apply vs propagate. Gaussian dephasing and "
         "time-dependent tensors (recomputed per interval; the semigroup clause is stated for time-independent generators) are not part "
-        "of this check; apply(time='all') raises AttributeError in the package (noted, outside the property).",
-   design="7/C08", technique="Coq proof (tensor algebra under tensordot, relational induction transferring the Taylor loop from states to tensors) + in-Coq differential correspondence in exact rational arithmetic + statement-level translator (elemental step, dense contraction loop and remaining-steps loop regenerated from the source, equivalence lemmas re-proved every run)"),
+        "of this check; apply(time='all') raises AttributeError in the package (noted, outside the property). Glue tie: per run and fail-closed; the attribute-level effect analysis is sound only absent aliasing and does not cover the state of referenced objects (ham, relt); the Gaussian and time-dependent branches are matched verbatim only.",
+   design="7/C08", technique="Coq proof (tensor algebra under tensordot, relational induction transferring the Taylor loop from states to tensors) + in-Coq differential correspondence in exact rational arithmetic + statement-level translator (elemental step, dense contraction loop and remaining-steps loop regenerated from the source, equivalence lemmas re-proved every run) + static tie of the glue around the kernels (initialisation, dispatch and decision trees, index bookkeeping, RWA and dephasing factors, sub-axis logic, constructors, fields read and written): the code's own expressions instantiate skeleton combinators (Proofs/C02gen.v, C07gen.v, C08objgen.v, C17gen.v) proved equal to Model/C02glue.v, C07glue.v, C08obj.v and C17axis.v"),
  "C12": dict(
    text="Proved in Coq over any commutative ring and for every line-shape function: the orientational prefactor F4e.M4.F4n is "
         "invariant under a common orthogonal transformation of all four dipoles or of all four polarisations (improper ones "
